@@ -7,14 +7,15 @@
   Model.Des.tdeaEnc, Model.Serpent.encBytes) with the key fixed.  The constructors of the real objects raise for
   keys they do not accept *before* any mode object exists: `…?` runs the constructor's checks first.
 
-  Threefish is not modelled yet: HOOK — add `threefish (key tweak : List Nat) : BlockCipher` (len = |key|, 32/64/128)
-  here, `threefish?`, a constructor in `Proofs.Lemmas.ModeInst.LibCipher` and its `Implements` proof; nothing else in
-  the C05 development depends on the list of ciphers.
+  `Threefish(key,tweak)`: `blocksize` is the property `K.size` (= 8·|key| bits: 32/64/128-byte blocks), `enc`/`dec` are
+  Model.Threefish.encrypt/decrypt with key and tweak fixed.  Nothing else in the C05 development depends on the list of
+  ciphers: one constructor of `Proofs.Lemmas.ModeInst.LibCipher` and one `…_implements` proof per cipher.
 -/
 import Model.Mode
 import Model.Aes
 import Model.Des
 import Model.Serpent
+import Model.Threefish
 namespace Model.Mode.Ciphers
 open Model
 
@@ -29,6 +30,10 @@ def tdea (K1 : List Nat) (K2 K3 : Option (List Nat)) : BlockCipher := ⟨8, Des.
 
 /-- `Serpent(key)`: blocksize 128, keys of 0..32 bytes -/
 def serpent (key : List Nat) : BlockCipher := ⟨16, Serpent.encBytes key, Serpent.decBytes key⟩
+
+/-- `Threefish(key,tweak)`: blocksize = `K.size` = 8·|key| (256/512/1024 bits), 16-byte tweak -/
+def threefish (key tweak : List Nat) : BlockCipher :=
+  ⟨key.length, Threefish.encrypt key tweak, Threefish.decrypt key tweak⟩
 
 /-! ### with the constructor's own checks (an unacceptable key raises when the cipher object is built) -/
 
@@ -57,5 +62,14 @@ def serpent? (key : List Nat) : Except Err BlockCipher :=
   match (Bits.ofBytes key none 1 >>= Serpent.init) with
   | .error e => .error e
   | .ok c => .ok (serpentObj c)
+
+/-- the Threefish object proper: the extended key / tweak word lists `__k`, `__t` are computed once by the constructor,
+    `blocksize` reads `self.K.size` (`Threefish.encrypt key tweak` = the constructor followed by this `enc`) -/
+def threefishObj (c : Threefish.Ctx) : BlockCipher := ⟨c.K.size / 8, Threefish.enc c, Threefish.dec c⟩
+
+def threefish? (key tweak : List Nat) : Except Err BlockCipher :=
+  match Threefish.init key tweak with
+  | .error e => .error e
+  | .ok c => .ok (threefishObj c)
 
 end Model.Mode.Ciphers
